@@ -5,6 +5,7 @@ import sympy as sp
 
 from ..model import walk, strip, is_call, call_obj, call_args, render, short, AnalysisBroken
 from .. import sym as S
+from .. import lints
 from .c07 import force_blocks, cross
 
 EXPLANATION = ("LF engine on cell.cpp's force routines, for all operand values: (1) tension/elasticity: the three add_force arguments of a "
@@ -32,6 +33,9 @@ def declare(rep):
     rep.rule("C02.angle-gradient-sum", "get_angle_gradient: the three returned gradients sum to zero", floor=1)
     rep.rule("C02.angle-slots", "angle regularisation: each node receives the gradient slot whose argument is its own position; forces sum to zero", floor=9)
     rep.rule("C02.bending-sides", "bending: in each term of the hinge-angle gradients normal, angle and area belong to the same face of the hinge", floor=4)
+    rep.rule("C02.ledger-all-or-none", "the forces of one zero-sum ledger (all add_force calls of one face / hinge) are applied under the same conditions", floor=4)
+    rep.rule("C02.slot-loop-bound", "no routine of class cell visits the node/face slots [0, live count): used elements behind a free slot would get no force", floor=5)
+    rep.rule("C02.bending-stiffness", "bending: the forces on the four nodes of a hinge carry one common stiffness factor (their sum cannot vanish otherwise)", floor=1)
     rep.rule("C02.bending-receivers", "bending: the four hinge nodes (edge nodes, opposite nodes of f1 and f2) receive the gradients of their own slots", floor=4)
     rep.rule("C02.translation", "every internal force is invariant under a common translation of the node positions", floor=10)
 
@@ -56,10 +60,52 @@ def run(rep, prog, tier):
         rep.note("tension identities not evaluated: they depend on the normal computed by update_face_normal_and_area")
     else:
         tension(rep, prog)
+    if not ledger_guards(rep, prog):
+        return
+    lints.check_slot_loops(rep, prog, "C02.slot-loop-bound", lambda cls, fn: cls == "cell")
     pressure(rep, prog)
     angles(rep, prog)
     bending(rep, prog)
     translation(rep, prog)
+
+
+def ledger_guards(rep, prog):
+    """Every routine applies, per face or per hinge, a set of forces that cancel; they cancel only if all of them are applied.
+    The add_force calls of one routine that share their innermost enclosing loop (or the function body) must therefore be
+    guarded by the same chain of conditions."""
+    rule = "C02.ledger-all-or-none"
+    good = True
+    for qn in ROUTINES:
+        for fn in prog.fns(qn):
+            if not isinstance(fn.get("body"), dict):
+                continue
+            fi = prog.index(fn)
+            groups = {}
+            for c in walk(fn["body"]):
+                if c.get("k") == "CXXMemberCallExpr" and c.get("callee") == "node::add_force":
+                    chain = []
+                    scope = None
+                    for p, slot, ch in fi.ancestors(c):
+                        if p.get("k") in ("ForStmt", "CXXForRangeStmt", "WhileStmt", "DoStmt"):
+                            scope = id(p)
+                            break
+                        if p.get("k") == "IfStmt" and slot in ("then", "else"):
+                            chain.append((id(p), slot))
+                        elif p.get("k") in ("ConditionalOperator", "SwitchStmt"):
+                            chain.append((id(p), slot))
+                    groups.setdefault(scope, []).append((c, tuple(chain)))
+            for scope, lst in groups.items():
+                if len(lst) < 2:
+                    continue
+                chains = {ch for _c, ch in lst}
+                if len(chains) == 1:
+                    rep.ok(rule, prog, fn, lst[0][0], "%d add_force calls under one common guard chain" % len(lst))
+                else:
+                    good = False
+                    rep.violation(rule, prog, fn, lst[0][0], "forces of one ledger applied under different conditions",
+                                  "%s: the %d add_force calls that together cancel (zero net force and torque of the term) are guarded by %d different condition chains (lines %s): "
+                                  "when only some of them are applied the term exerts a net force on the cell" % (fn["qn"], len(lst), len(chains), ", ".join(str(c.get("l")) for c, _ in lst)))
+    return good
 
 
 class NormalGuard(Exception):
@@ -401,8 +447,63 @@ def bending(rep, prog):
                 rep.ok("C02.bending-receivers", prog, fn, c, "%s receives the gradients of slot x%d" % (want[role], slot))
             else:
                 rep.violation("C02.bending-receivers", prog, fn, c, "hinge node receives the gradient of another slot", "%s: %s receives the force assembled from slot %s" % (short(c, 60), want.get(role, R), slot))
+        bending_stiffness(rep, prog, fn, blk, calls)
     except S.Decline as e:
         raise AnalysisBroken("%s: %s" % (prog.loc(fn, blk), e))
+
+
+def bending_stiffness(rep, prog, fn, blk, calls):
+    """The four hinge gradients (of the angle and of the in-plane term) sum to zero; the forces are these gradients times
+    scalar factors. sum F = 0 needs the scalars of the four nodes to agree, in particular every one of them must depend on
+    the bending moduli of the two faces through the same factor. Each force argument is evaluated with the vector locals it
+    is assembled from kept opaque; every scalar coefficient c then has to satisfy c / c[moduli := 1] == S for one S."""
+    rule = "C02.bending-stiffness"
+    factors = []
+    for c in calls:
+        ev = S.SymEval(prog, fn)
+        a = strip(call_args(c)[0])
+        init = a
+        if a.get("k") == "DeclRefExpr":
+            d = ev._var_decl(a["ref"]["did"])
+            if isinstance(d, dict) and isinstance(d.get("init"), dict):
+                init = d["init"]
+        k = 0
+        for x in walk(init):
+            if x.get("k") == "DeclRefExpr" and x["ref"].get("dk") == "Var" and S.clean_type(x.get("t", "")) == "vec3" and x["ref"]["did"] not in ev.overrides:
+                ev.overrides[x["ref"]["did"]] = ev.obj("G%d_%s" % (k, x["ref"]["name"]), "vec3")
+                k += 1
+        if k == 0:
+            raise AnalysisBroken("%s: the force argument of %s is not assembled from vector locals" % (prog.loc(fn, c), short(c, 50)))
+        v = vec(ev, ev.ev(init))
+        coeffs = []
+        for comp in v:
+            e = sp.expand(comp)
+            gs = [g for g in e.free_symbols if re.match(r"^G\d+_", g.name)]
+            for g in gs:
+                cg = sp.expand(e.coeff(g))
+                if cg != 0:
+                    coeffs.append(cg)
+        mods = set()
+        for cg in coeffs:
+            mods |= {m for m in cg.free_symbols if m.name.endswith("bending_modulus_")}
+        fs = set()
+        for cg in coeffs:
+            den = cg.subs({m: 1 for m in mods})
+            if den == 0:
+                fs.add(sp.Symbol("?"))
+                continue
+            fs.add(sp.simplify(cg / den))
+        factors.append((c, fs))
+    allf = set()
+    for c, fs in factors:
+        allf |= fs
+    if len(allf) == 1 and any(m.name.endswith("bending_modulus_") for f in allf for m in f.free_symbols):
+        rep.ok(rule, prog, fn, blk, "all four hinge forces scale with the common stiffness factor %s" % re.sub(r"#\d+", "", str(next(iter(allf))))[:160])
+    else:
+        per = "; ".join("%s: %s" % (short(c, 40), sorted(re.sub(r"#\d+", "", str(f))[:90] for f in fs)) for c, fs in factors)
+        rep.violation(rule, prog, fn, blk, "hinge forces do not share one stiffness factor",
+                      "the four forces of a hinge are its four gradients (which sum to zero) times scalar factors; their dependence on the bending moduli differs between the nodes (%s): "
+                      "on a hinge between face types of different bending modulus the four forces no longer cancel and bending adds a net force and torque to the cell" % per)
 
 
 def atom_side(name):
